@@ -11,7 +11,8 @@ PROPERTY = "C07"
 RULE = ("Hypothesis-generated geometries: nrows, ncols in 1..40 (weight on 1 "
         "and 2), cell size m*2^e (e in -13..13) or non-dyadic (0.05, 1/3, "
         "0.1*10^k), origins up to 1e4 cell sizes from zero with any sign; "
-        "every valid cell of small grids / sampled cells of larger ones, "
+        "every valid cell of small grids / sampled cells of larger ones, vectors "
+        "mixing valid and invalid cell numbers in any order, "
         "invalid cell numbers, points inside footprints at centre + "
         "(u, v)*cellsize with |u|,|v| <= 0.5-1e-9, points outside the extent "
         "on the 8 sides/diagonals at {1e-9,1e-3,.5,.999,1,7.3,1e6} cell sizes, "
@@ -70,6 +71,9 @@ def cases(draw, tier):
         for k in (1, 2):
             if p[k] is None:
                 p[k] = draw(sunit) * (0.5 - 1e-9)
+    g["mixed"] = draw(st.lists(st.one_of(
+        st.integers(-3, n + 2), st.sampled_from([-1, 0, 1, n - 1, n])),
+        max_size=12))
     g["outside"] = [[draw(st.integers(0, 7)), draw(st.sampled_from(DIST)),
                      draw(st.sampled_from(DIST)), draw(unit)]
                     for _ in range(draw(st.integers(4, 24)))]
@@ -167,6 +171,40 @@ def check_invalid(g, case):
             raise Violation(f"coord2cell({v}) = {c[0]}, expected -1")
 
 
+def check_mixed(g, case, cells):
+    """One call on a vector mixing valid and invalid cell numbers in any
+    order: every element is judged on its own."""
+    nr, nc, csz = case["nrows"], case["ncols"], case["csz"]
+    xll, yll = case["xll"], case["yll"]
+    n = nr * nc
+    cells = np.array(cells, dtype=np.int64)
+    if len(cells) == 0:
+        return
+    xy = g.cell2coord(cells)
+    rc = g.cell2rowcol(cells)
+    mag = max(abs(xll), abs(yll)) + max(nr, nc) * csz
+    tol = 4 * np.spacing(mag)
+    for i, c in enumerate(cells):
+        c = int(c)
+        if 0 <= c < n:
+            r, k = divmod(c, nc)
+            ex = xll + (k + 0.5) * csz
+            ey = yll + (nr - 1 - r + 0.5) * csz
+            if not (abs(xy[i, 0] - ex) <= tol and abs(xy[i, 1] - ey) <= tol):
+                raise Violation(
+                    f"cell2coord({cells.tolist()})[{i}] = {xy[i].tolist()}, "
+                    f"centre of cell {c} is ({ex}, {ey}); geometry "
+                    f"{case_geom(case)}")
+            if rc[i].tolist() != [r, k]:
+                raise Violation(f"cell2rowcol({cells.tolist()})[{i}] = "
+                                f"{rc[i].tolist()}, expected {[r, k]}")
+        else:
+            if not np.all(np.isnan(xy[i])) or rc[i].tolist() != [-1, -1]:
+                raise Violation(
+                    f"invalid cell {c} in {cells.tolist()} is mapped to "
+                    f"{xy[i].tolist()} / {rc[i].tolist()}")
+
+
 def oracle(case):
     g = make_grid(case)
     nr, nc, csz = case["nrows"], case["ncols"], case["csz"]
@@ -176,6 +214,10 @@ def oracle(case):
     check_cells(g, case, case["cells"])
     check_neighbours(g, case, case["cells"][:12])
     check_invalid(g, case)
+    check_mixed(g, case, case.get("mixed", []))
+    if nr * nc <= 60:
+        check_mixed(g, case, list(range(-3, nr * nc + 3)))
+        check_mixed(g, case, list(range(nr * nc + 2, -4, -1)))
     # xvalues / yvalues
     xv, yv = g.xvalues, g.yvalues
     first_row = g.cell2coord(np.arange(nc))[:, 0]
@@ -268,6 +310,8 @@ def enum_oracle(case):
     check_cells(g, case, list(range(n)))
     check_neighbours(g, case, list(range(n)))
     check_invalid(g, case)
+    check_mixed(g, case, list(range(-3, n + 3)))
+    check_mixed(g, case, [n - 1, -1, 0, 1, n, 0, -1, 1])
     pts, exp = [], []
     for i in range(-8, 4 * nc + 9):
         for j in range(-8, 4 * nr + 9):
